@@ -461,6 +461,9 @@ def compare(chk, spec, res, key, answer, default_styles):
         chk.corr_diff(case, r[1][max(0, k - 60):k + 60], rendered[max(0, k - 60):k + 60], '%s output string, first difference at %d' % (key, k))
         return
     if key != 'm':
+        if key == 'x1' and u']]>' in (split_css(r[1], default_styles) or u''):
+            chk.count('corr_tokens_skipped_css_cdata_end')     # finding KF-C18-4: the CDATA section ends inside the style sheet
+            return
         try:
             ev = merge_chars(xhtml_events(r[1]))
         except xml.parsers.expat.ExpatError:
